@@ -229,8 +229,11 @@ def jobs_for(prop, tier, seed, only_leg=None):
         if only_leg is not None and li != only_leg:
             continue
         n = leg.get("shards", 1)
+        of = leg.get("of", n)
         for s in range(n):
-            args = [plan["driver"], "tier=%s" % tier, "seed=%d" % seed, "shard=%d" % s, "nshards=%d" % n, "cfg=%s" % leg["cfg"], "tmp=%s" % tmp]
+            args = [plan["driver"], "tier=%s" % tier, "seed=%d" % seed, "shard=%d" % s, "nshards=%d" % of, "cfg=%s" % leg["cfg"], "tmp=%s" % tmp]
+            if leg.get("budget"):
+                args.append("budget=%d" % leg["budget"])
             if leg.get("part"):
                 args.append("part=%s" % leg["part"])
             if leg.get("scale"):
